@@ -2,6 +2,7 @@ package main
 
 import (
 	"fmt"
+	"runtime"
 
 	"verifmc/hx"
 	"verifmc/ref"
@@ -81,8 +82,18 @@ func checkC07(c *hx.Checker) {
 		}
 		vars = append(vars, variant{dt, sub, routes})
 	}
+	// jobs are run in batches (memory: the thorough box has several million jobs with their expected tensors)
+	flush := func(min int) {
+		if len(jobs) >= min && len(jobs) > 0 {
+			runOpJobs(c, jobs)
+			runReuseJobs(c, jobs)
+			jobs = nil
+			runtime.GC()
+		}
+	}
 	for vi, v := range vars {
 		for _, sh := range v.shapes {
+			flush(250000)
 			r := len(sh)
 			data := ref.Distinct(v.dt, sh)
 			for _, route := range v.routes {
@@ -181,6 +192,5 @@ func checkC07(c *hx.Checker) {
 		add("Squeeze", nil, []*ref.T{data, nil}, exps, errs, "op", nil, true, "large axes-absent", "large")
 		add("Shape", nil, []*ref.T{data}, ref.ShapeOf(data), nil, "op", nil, true, "large", "large")
 	}
-	runOpJobs(c, jobs)
-	runReuseJobs(c, jobs)
+	flush(0)
 }
